@@ -91,6 +91,7 @@ Definition cyc_c : nstate := NState [97] [] 1 3 0 1 1 0.
 Lemma isnewer_cycle :
   isnewer cyc_a cyc_b = true /\ isnewer cyc_b cyc_c = true /\ isnewer cyc_c cyc_a = true.
 Proof. vm_compute. auto. Qed.
+Definition isnewer_cycle_example := isnewer_cycle.
 
 (** * recomputeCounts and the prune *)
 
